@@ -1,6 +1,7 @@
 /-
   Lemmas about the float model `AuModel.Flt`: integers of magnitude at most 2^digits are fixed points of
-  round-to-nearest-even (so `static_cast<F>(n)` is exact for them).  Core Lean only.
+  round-to-nearest-even (so `static_cast<F>(n)` is exact for them), and a rational of magnitude at most max(F) never
+  rounds to infinity.  Core Lean only.
 -/
 import AuModel.Flt
 namespace Au
@@ -117,5 +118,157 @@ theorem ofInt_exact (F : FltTy) (hp : 1 ≤ F.prec) (hmax : 2 ^ F.prec ≤ F.max
 
 theorem fmt_facts : ∀ F ∈ FltTy.all, 1 ≤ F.prec ∧ 2 ^ F.prec ≤ F.maxNat ∧ F.emin ≤ 0 := by
   decide +kernel
+
+
+/-! ### Rounding does not overflow within the finite range -/
+
+theorem roundEvenDiv_le (n d L : Nat) (hd : 0 < d) (h : n ≤ L * d) : roundEvenDiv n d ≤ L := by
+  unfold roundEvenDiv
+  have hq : n / d ≤ L := by
+    have := Nat.div_le_div_right (c := d) h
+    rwa [Nat.mul_div_cancel _ hd] at this
+  by_cases hlt : n / d < L
+  · simp only []
+    split
+    · omega
+    · split
+      · omega
+      · split <;> omega
+  · have heq : n / d = L := by omega
+    have hmod : n % d = 0 := by
+      have h1 := Nat.div_add_mod n d
+      rw [heq] at h1
+      have : d * L = L * d := Nat.mul_comm _ _
+      omega
+    simp [hmod, hd, heq]
+
+/-- Upper bound on the binade found by `ilog2`: if `n/d < 2^E` then `ilog2 n d < E`. -/
+theorem ilog2_lt (n d E : Nat) (hn : n ≠ 0) (h : n < 2 ^ E * d) : ilog2 n d < (E : Int) := by
+  have hln := Nat.log2_self_le hn
+  have hld : d < 2 ^ (d.log2 + 1) := Nat.lt_log2_self
+  unfold ilog2
+  simp only []
+  by_cases h0 : (0 : Int) ≤ (n.log2 : Int) - (d.log2 : Int)
+  · rw [if_pos h0]
+    have e0 : ((n.log2 : Int) - (d.log2 : Int)).toNat = n.log2 - d.log2 := by omega
+    rw [e0]
+    by_cases hc : 2 ^ (n.log2 - d.log2) * d ≤ n
+    · rw [if_pos hc]
+      by_cases hE : n.log2 - d.log2 < E
+      · omega
+      · exfalso
+        have : 2 ^ E ≤ 2 ^ (n.log2 - d.log2) := Nat.pow_le_pow_right (by decide) (by omega)
+        have : 2 ^ E * d ≤ 2 ^ (n.log2 - d.log2) * d := Nat.mul_le_mul_right d this
+        omega
+    · rw [if_neg hc]
+      by_cases hE : (n.log2 : Int) - (d.log2 : Int) - 1 < (E : Int)
+      · exact hE
+      · exfalso
+        have h1 : d.log2 + 1 + E ≤ n.log2 := by omega
+        have h2 : 2 ^ (d.log2 + 1 + E) ≤ 2 ^ n.log2 := Nat.pow_le_pow_right (by decide) h1
+        rw [Nat.pow_add] at h2
+        have h3 : d * 2 ^ E < 2 ^ (d.log2 + 1) * 2 ^ E :=
+          Nat.mul_lt_mul_of_pos_right hld (Nat.pow_pos (by decide))
+        have : 2 ^ E * d = d * 2 ^ E := Nat.mul_comm _ _
+        omega
+  · rw [if_neg h0]
+    split <;> omega
+
+theorem pow2_nonneg' (k : Int) : 0 ≤ pow2 k := by
+  unfold pow2
+  split
+  · exact Rat.natCast_nonneg
+  · rw [← Rat.divInt_ofNat]
+    exact Rat.divInt_nonneg (by decide) (Int.natCast_nonneg _)
+
+theorem maxNat_lt (F : FltTy) (_hp : 1 ≤ F.prec) (hK : F.prec ≤ F.emax + 1) : F.maxNat < 2 ^ (F.emax + 1) := by
+  unfold maxNat
+  have h1 : 2 ^ (F.emax + 1) = 2 ^ F.prec * 2 ^ (F.emax + 1 - F.prec) := by
+    rw [← Nat.pow_add]; congr 1; omega
+  rw [h1]
+  have hpos : 0 < 2 ^ (F.emax + 1 - F.prec) := Nat.pow_pos (by decide)
+  have h2 : 2 ^ F.prec - 1 < 2 ^ F.prec := by
+    have : 0 < 2 ^ F.prec := Nat.pow_pos (by decide)
+    omega
+  exact Nat.mul_lt_mul_of_pos_right h2 hpos
+
+/-- A rational of magnitude at most `max(F)` does not round to infinity. -/
+theorem rneAbs_le_max (F : FltTy) (hp : 1 ≤ F.prec) (hK : F.prec ≤ F.emax + 1) (he : 1 ≤ F.emax)
+    (n d : Nat) (hn : n ≠ 0) (hd : 0 < d) (hle : n ≤ F.maxNat * d) :
+    ¬ (F.maxFinite < ((rneAbs F n d).1 : Rat) * pow2 (rneAbs F n d).2) := by
+  have hlt : n < 2 ^ (F.emax + 1) * d := by
+    have := Nat.mul_lt_mul_of_pos_right (maxNat_lt F hp hK) hd
+    omega
+  have hE := ilog2_lt n d (F.emax + 1) hn hlt
+  rw [Rat.not_lt]
+  unfold rneAbs maxFinite
+  simp only []
+  -- name the exponent of the spacing
+  generalize hk : (if ilog2 n d < F.emin then F.emin else ilog2 n d) - ((F.prec : Int) - 1) = k
+  have hkK : k ≤ ((F.emax + 1 - F.prec : Nat) : Int) := by
+    have : F.emin = 1 - (F.emax : Int) := rfl
+    split at hk <;> omega
+  by_cases hk0 : 0 ≤ k
+  · rw [if_pos hk0]
+    obtain ⟨kn, rfl⟩ := Int.eq_ofNat_of_zero_le hk0
+    simp only [Int.toNat_natCast, pow2_nonneg]
+    -- L = (2^p - 1) * 2^(K - kn)
+    have hK2 : 2 ^ (F.emax + 1 - F.prec) = 2 ^ (F.emax + 1 - F.prec - kn) * 2 ^ kn := by
+      rw [← Nat.pow_add]; congr 1; omega
+    have hm : roundEvenDiv n (d * 2 ^ kn) ≤ (2 ^ F.prec - 1) * 2 ^ (F.emax + 1 - F.prec - kn) := by
+      apply roundEvenDiv_le _ _ _ (Nat.mul_pos hd (Nat.pow_pos (by decide)))
+      have : (2 ^ F.prec - 1) * 2 ^ (F.emax + 1 - F.prec - kn) * (d * 2 ^ kn) = F.maxNat * d := by
+        unfold maxNat
+        rw [hK2]
+        simp only [Nat.mul_assoc, Nat.mul_comm]
+      omega
+    rw [← Rat.natCast_mul, Rat.natCast_le_natCast]
+    have := Nat.mul_le_mul_right (2 ^ kn) hm
+    have e : (2 ^ F.prec - 1) * 2 ^ (F.emax + 1 - F.prec - kn) * 2 ^ kn = F.maxNat := by
+      unfold maxNat
+      rw [hK2, Nat.mul_assoc]
+    omega
+  · rw [if_neg hk0]
+    have hkneg : k = -(((-k).toNat : Nat) : Int) := by omega
+    have hj : 0 < (-k).toNat := by omega
+    generalize hjn : (-k).toNat = j at hkneg hj
+    have hm : roundEvenDiv (n * 2 ^ j) d ≤ F.maxNat * 2 ^ j := by
+      apply roundEvenDiv_le _ _ _ hd
+      have := Nat.mul_le_mul_right (2 ^ j) hle
+      have e : F.maxNat * 2 ^ j * d = F.maxNat * d * 2 ^ j := by
+        simp only [Nat.mul_comm, Nat.mul_left_comm]
+      omega
+    rw [hkneg, pow2_neg j hj]
+    have h2 : (0 : Rat) ≤ mkRat 1 (2 ^ j) := by
+      rw [← Rat.divInt_ofNat]
+      exact Rat.divInt_nonneg (by decide) (Int.natCast_nonneg _)
+    have h3 := Rat.mul_le_mul_of_nonneg_right (Rat.natCast_le_natCast.2 hm) h2
+    rw [natCast_mul_mkRat _ _ (Nat.ne_of_gt (Nat.pow_pos (by decide)))] at h3
+    exact h3
+
+/-- Rounding a rational of magnitude at most `max(F)` gives a finite value (no overflow to ±inf). -/
+theorem rne_finite (F : FltTy) (hp : 1 ≤ F.prec) (hK : F.prec ≤ F.emax + 1) (he : 1 ≤ F.emax)
+    (q : Rat) (hlo : -F.maxFinite ≤ q) (hhi : q ≤ F.maxFinite) : ∃ r : Rat, rne F q = .fin r := by
+  unfold rne
+  by_cases hq : q = 0
+  · exact ⟨0, by simp [hq]⟩
+  · rw [if_neg hq]
+    have hn : q.num.natAbs ≠ 0 := by
+      intro h
+      apply hq
+      have : q.num = 0 := by omega
+      exact Rat.num_eq_zero.1 this
+    have hle : q.num.natAbs ≤ F.maxNat * q.den := by
+      unfold maxFinite at hlo hhi
+      rw [Rat.le_iff] at hlo hhi
+      simp only [Rat.neg_num, Rat.neg_den, Rat.num_natCast, Rat.den_natCast, Int.neg_mul] at hlo hhi
+      have h1 : ((F.maxNat * q.den : Nat) : Int) = (F.maxNat : Int) * (q.den : Int) := by simp
+      omega
+    have := rneAbs_le_max F hp hK he q.num.natAbs q.den hn q.den_pos hle
+    simp only [this, if_false]
+    exact ⟨_, rfl⟩
+
+theorem fmt_facts2 : ∀ F ∈ FltTy.all, 1 ≤ F.prec ∧ F.prec ≤ F.emax + 1 ∧ 1 ≤ F.emax := by
+  decide
 
 end Au
